@@ -39,7 +39,7 @@ func c01Corpus(r *Run) []*pipeline.Case {
 	for _, e := range descgen.Exotic() {
 		cases = append(cases, caseFrom(e))
 	}
-	n := r.pick(12, 300)
+	n := r.pick(24, 300)
 	rnd := rand.New(rand.NewSource(r.Seed))
 	for i := 0; i < n; i++ {
 		e := descgen.Random(r.Seed, i, descgen.RandOpt{})
